@@ -1,5 +1,6 @@
-"""Replay driver for Trickery.tla (C20 mode switch): each specification thread is a real thread; operations are
-executed one at a time in the order TLC chose; an extraction's implementation is identified from its result
+"""Replay driver for Trickery.tla (C20 mode switch): each specification thread is a real thread; the steps (set, the
+lock-free check, the lock acquisition, the re-check / self-test under the lock) are carried out one at a time in the
+order TLC chose, the threads being held at the lock's entry and inside it by a gate wrapped around the lock; an extraction's implementation is identified from its result
 (trickery fills start_line, the referents fallback cannot).  stdlib-only.
 usage: trickery_driver.py <behaviours.json> <out.json>"""
 import json
@@ -21,37 +22,74 @@ class CM:
         return False
 
 
-LOCK = threading.Lock()
-
-
 def target(box):
     # a manager written in Python and two implemented in C (their __exit__ is a builtin method)
-    with CM() as m, LOCK as lk, open(os.devnull) as fh:  # noqa: F841
-        box.extend([m, LOCK, fh])
+    lock = threading.Lock()          # its own: extractions of two threads overlap
+    with CM() as m, lock as lk, open(os.devnull) as fh:  # noqa: F841
+        box.extend([m, lock, fh])
         yield 1
 
 
+class GateLock:
+    """stands in for the module's _trickery_lock: the same lock, but a thread whose gate is armed reports that it is about
+    to acquire it ("want") and that it has acquired it ("in"), and waits for the driver's go each time"""
+
+    def __init__(self, real):
+        self.real = real
+        self.gates = {}
+
+    def __enter__(self):
+        w = self.gates.get(threading.get_ident())
+        if w is not None and w.armed:
+            w.r.put(("gate", "want"))
+            w.go.get()
+        self.real.acquire()
+        if w is not None and w.armed:
+            w.armed = False                     # one acquisition per extraction is scheduled
+            w.r.put(("gate", "in"))
+            w.go.get()
+        return True
+
+    def __exit__(self, *a):
+        self.real.release()
+
+    def acquire(self, *a, **kw):
+        return self.real.acquire(*a, **kw)
+
+    def release(self):
+        return self.real.release()
+
+    def locked(self):
+        return self.real.locked()
+
+
 class Worker:
-    def __init__(self, name):
-        self.q, self.r = queue.Queue(), queue.Queue()
+    def __init__(self, name, gate):
+        self.q, self.r, self.go = queue.Queue(), queue.Queue(), queue.Queue()
+        self.armed = False
+        self.stage = "idle"
+        self.gate = gate
         self.t = threading.Thread(target=self.run, name=name, daemon=True)
         self.t.start()
 
     def run(self):
+        self.gate.gates[threading.get_ident()] = self
         while True:
             op = self.q.get()
             if op is None:
                 return
             if op["a"] == "set":
                 lowlevel.set_trickery_enabled({"none": None, "on": True, "off": False}[op["v"]])
-                self.r.put("-")
+                self.r.put(("done", "-"))
             else:
                 box = []
                 g = target(box)
                 next(g)
+                self.armed = True
                 with warnings.catch_warnings(record=True) as wl:
                     warnings.simplefilter("always")
                     st = stackscope.extract(g)
+                self.armed = False
                 ctxs = st.frames[0].contexts
                 used = "?"
                 if len(ctxs) >= 1 and ctxs[0].obj is box[0]:
@@ -62,25 +100,66 @@ class Worker:
                 if [w for w in wl if issubclass(w.category, RuntimeWarning)]:
                     used += "+warning"
                 g.close()
-                self.r.put(used)
+                self.r.put(("done", used))
+
+
+def step(w, op):
+    """carry out one specification step on worker w; returns what the real thread did"""
+    a = op["a"]
+    if a in ("set", "extract", "begin"):
+        w.q.put(op)
+    else:                       # acquire / finish: let the thread held at the gate go on
+        w.go.put(True)
+    got = w.r.get(timeout=20)
+    if got[0] == "gate":
+        w.stage = got[1]
+        return {"want": "begin", "in": "acquire"}[got[1]], "-"
+    was = w.stage
+    w.stage = "idle"
+    if a == "set":
+        return "set", "-"
+    return ("finish" if was == "in" else "extract"), got[1]
 
 
 def main():
     data = json.load(open(sys.argv[1]))
-    out = {"n": 0, "mismatches": []}
+    out = {"n": 0, "steps": 0, "mismatches": []}
+    import stackscope._lowlevel as ll
+    real = getattr(ll, "_trickery_lock", None)
+    if real is None or not hasattr(real, "acquire"):
+        raise SystemExit("harness: stackscope._lowlevel has no _trickery_lock to put the scheduling gate around")
+    gate = GateLock(real)
+    ll._trickery_lock = gate
     workers = {}
-    for beh in data["behaviours"]:
-        lowlevel.set_trickery_enabled(None)
-        for k, op in enumerate(beh["acts"]):
-            if op["t"] not in workers:
-                workers[op["t"]] = Worker(op["t"])
-            w = workers[op["t"]]
-            w.q.put(op)
-            got = w.r.get(timeout=20)
-            if got != op["used"]:
-                out["mismatches"].append({"acts": beh["acts"][:k + 1], "bad": "step %d: spec says implementation %s was used, real %s" % (k, op["used"], got)})
-                break
-        out["n"] += 1
+    try:
+        for beh in data["behaviours"]:
+            lowlevel.set_trickery_enabled(None)
+            for k, op in enumerate(beh["acts"]):
+                if op["t"] not in workers:
+                    workers[op["t"]] = Worker(op["t"], gate)
+                w = workers[op["t"]]
+                try:
+                    did, used = step(w, op)
+                except queue.Empty:
+                    raise SystemExit("harness: no answer from thread %s at step %d of %s" % (op["t"], k, beh["acts"]))
+                out["steps"] += 1
+                # a thread that finds a setting in place finishes at once ("extract"); one that does not stops at the lock
+                if did != op["a"] and {did, op["a"]} == {"extract", "begin"}:
+                    out["mismatches"].append({"acts": beh["acts"][:k + 1], "bad": "step %d: spec says the lock-free check %s, the real thread %s" % (
+                        k, "found no setting" if op["a"] == "begin" else "found a setting", "finished at once" if did == "extract" else "went for the lock")})
+                    break
+                if did != op["a"]:
+                    raise SystemExit("harness: step %s carried out as %s" % (op, did))
+                if used != op["used"]:
+                    out["mismatches"].append({"acts": beh["acts"][:k + 1], "bad": "step %d: spec says implementation %s was used, real %s" % (k, op["used"], used)})
+                    break
+            # let every extraction still under way run to its end
+            while any(w.stage != "idle" for w in workers.values()):
+                pending = sorted((w for w in workers.values() if w.stage != "idle"), key=lambda w: w.stage != "in")
+                step(pending[0], {"a": "finish"})      # the holder of the lock first
+            out["n"] += 1
+    finally:
+        ll._trickery_lock = real
     lowlevel.set_trickery_enabled(None)
     for w in workers.values():
         w.q.put(None)
